@@ -690,18 +690,33 @@ class SpecMixin:
                 st.assume(z3.Implies(z3.Not(sv.none), f) if sv.none is not None else f)
         walk(res)
 
+    def pure_arg(self, sv, ty, st):
+        """argument of the value function of a pure program function: the deep value for dictionaries and lists; for an object
+        (also `self`) the reference *and* the current values of its declared fields - a pure method may read them, and they may
+        have been assigned between two calls (nested objects are represented by their reference only)"""
+        if ty.kind == "opt":
+            return [box(sv)], [Val]
+        if ty.kind == "obj":
+            from .state import _field_sort
+            v = self.coerce(sv, ty, st)
+            decl = self.reg.classes.get(ty.args[0])
+            zs, ss = [v.t], [I]
+            for f, fty in sorted((decl or {"fields": {}})["fields"].items()):
+                zs.append(st.field(ty.args[0], f, fty, v.t))
+                ss.append(_field_sort(fty))
+            return zs, ss
+        return self.expand_arg(sv, ty, st), self.arg_sorts(ty)
+
     def pure_result(self, c, params, res, pre, st):
         zargs, zsorts = [], []
         for n, ty in c.params.items():
-            if n == "self":
-                continue
-            t = ty.args[0] if ty.kind == "opt" else ty
-            if ty.kind == "opt":
-                zargs.append(box(params[n]))
-                zsorts.append(Val)
-            else:
-                zargs += self.expand_arg(params[n], t, pre)
-                zsorts += self.arg_sorts(t)
+            if n not in params:
+                if n == "self":
+                    continue  # static call of a function whose contract names no receiver
+                raise StaleContract("pure call of %s without argument %s" % (c.qualname, n))
+            za, zs = self.pure_arg(params[n], ty, pre)
+            zargs += za
+            zsorts += zs
         name = "F_" + c.qualname.replace(".", "_")
         rt = c.returns
         if rt.kind == "dict":
@@ -725,17 +740,14 @@ class SpecMixin:
         if c is None or not c.pure:
             raise StaleContract("F(%s): not a pure contract" % q)
         args = [self.ev(a, st, ctx) for a in node.args[1:]]
-        ptys = [(n, t) for n, t in c.params.items() if n != "self"]
+        ptys = list(c.params.items())   # a method's value function takes the receiver first
         if len(args) != len(ptys):
             raise StaleContract("F(%s) arity" % q)
         zargs, zsorts = [], []
         for a, (n, ty) in zip(args, ptys):
-            if ty.kind == "opt":
-                zargs.append(box(a))
-                zsorts.append(Val)
-            else:
-                zargs += self.expand_arg(a, ty, st)
-                zsorts += self.arg_sorts(ty)
+            za, zs = self.pure_arg(a, ty, st)
+            zargs += za
+            zsorts += zs
         rt = c.returns
         if rt.kind == "dict":
             rt = MapT(*rt.args)
